@@ -1,6 +1,7 @@
 GROUPS = []
 for _fs in (48000, 24000, 16000, 12000, 8000):
     GROUPS.append(dict(name='decode_native_fs%d' % _fs, cls='P', tu='C01_decode_native.c', entry='h_decode_native', canary='real',
+        tier='quick' if _fs in (48000, 16000, 8000) else 'thorough',     # each quick command has to stay well under 15 min on a loaded machine
         replace=['opus_decode_frame'], defines=['-DVERIF_FS=%d' % _fs], unwind=2, unwind_fn={'opus_packet_parse_impl': 49}, timeout=1800, expect_canaries=2,
         functions=['opus_decode_native', 'opus_packet_get_samples_per_frame', 'opus_packet_get_mode', 'opus_packet_get_bandwidth', 'opus_packet_get_nb_channels'],
         trusted=['ASSUMED contract of opus_decode_frame (result range, exact duration of a real frame, PLC multiple of 2.5 ms, writes only st fields and pcm[0..frame_size*channels))',
@@ -26,7 +27,7 @@ GROUPS.append(dict(name='decode_frame_fs8000', tier='off', cls='F', tu='C01_deco
 
 # concrete shapes (channels, TOC duration in 2.5 ms units, output buffer in samples at 8 kHz): exact-size output object
 _SHAPES = [  # (channels, tocf, buf, tier)
-   (2, 1, 20, 'quick'), (1, 2, 40, 'thorough'), (2, 4, 80, 'thorough'), (1, 8, 160, 'thorough'),    # buffer == TOC duration
+   (2, 1, 20, 'thorough'), (1, 2, 40, 'thorough'), (2, 4, 80, 'thorough'), (1, 8, 160, 'thorough'),    # buffer == TOC duration
    (1, 4, 79, 'thorough'), (2, 8, 100, 'thorough'),                                                   # buffer smaller than the TOC duration
    (1, 1, 60, 'thorough'), (2, 2, 60, 'thorough'), (1, 8, 220, 'thorough'),                           # PLC / FEC requests longer than the frame (7.5 ms remainders: 60 = 3 x 2.5 ms, 220 = 20 + 7.5 ms)
    (1, 16, 320, 'thorough'), (2, 24, 480, 'thorough'), (1, 8, 960, 'thorough'), (2, 8, 330, 'thorough'),
